@@ -8,5 +8,7 @@ import NbioVerif.Properties.C05
 #print axioms ExecQ.c05_open_accepts
 #print axioms ExecQ.c05_panic_like_return
 #print axioms ExecQ.c05_panic_then_next
+#print axioms ExecQ.c05_rejected_never_runs
+#print axioms ExecQ.c05_must_runs
 #print axioms ExecQ.c05_completes
 #print axioms ExecQ.c05_close_after_earlier
